@@ -46,7 +46,7 @@ type c09fix struct {
 	thrGpk           crypto.PublicKey
 	thrShares        []crypto.Signature
 	msg              []byte
-	vec, share, answ []byte // well-formed DKG messages (n=4, t=2, dealer 1, to 0)
+	vec, share, answ []byte         // well-formed DKG messages (n=4, t=2, dealer 1, to 0)
 	shares           map[int][]byte // dealer 1's share for every destination
 }
 
@@ -1147,8 +1147,8 @@ func C09(run *mon.Run) {
 			run.Require(run.Counter(b+".cmd."+e)+run.Counter(b+".fatal-exits") >= 50, fmt.Sprintf("entry point %s ran fewer than 50 commands in the %s build", e, b))
 		}
 	}
-	run.Sample(map[string]any{"example_command": plan.cmd(plan.total / 3).entry + "(" + plan.cmd(plan.total/3).desc + ")"})
-	run.Sample(map[string]any{"example_command": plan.cmd(plan.total - 9000).entry + "(" + trimStr(plan.cmd(plan.total-9000).desc, 300) + ")"})
+	run.Sample(map[string]any{"example_command": plan.cmd(plan.total/3).entry + "(" + plan.cmd(plan.total/3).desc + ")"})
+	run.Sample(map[string]any{"example_command": plan.cmd(plan.total-9000).entry + "(" + trimStr(plan.cmd(plan.total-9000).desc, 300) + ")"})
 }
 
 func trimStr(s string, n int) string {
